@@ -40,6 +40,7 @@ VCS_SUBCOMMANDS_BY_NAME = {
         'fetch'         : "git fetch",
         'ls_tags'       : "git tag --list --no-column",
         'ls_tags_branch': "git tag --list --no-column --merged",
+        'verify_head'   : "git rev-parse --verify --quiet HEAD",
         'status'        : "git status --porcelain --untracked-files=normal",
         'add_path'      : "git add --update -- '{path}'",
         'commit'        : "git commit --message '{message}'",
@@ -215,10 +216,25 @@ class VCSAPI:
 
     def ls_tags_branch(self) -> typ.List[str]:
         """List vcs tags on all branches."""
-        ls_tag_lines = self('ls_tags_branch').split("\n")
+        try:
+            ls_tag_lines = self('ls_tags_branch').split("\n")
+        except sp.CalledProcessError:
+            # NOTE: "--merged" refers to HEAD, which does not exist before
+            #   the first commit of a branch: no tag is reachable from it
+            if self.name == 'git' and not self._has_head():
+                return []
+            raise
+
         logger.debug(f"ls_tags_branch output {ls_tag_lines}")
         # NOTE: hg prints all tags of a changeset on one line, separated by blanks
         return [tag for line in ls_tag_lines for tag in line.strip(" \t\r").split(" ") if tag]
+
+    def _has_head(self) -> bool:
+        try:
+            self('verify_head')
+            return True
+        except sp.CalledProcessError:
+            return False
 
     def add(self, path: str) -> None:
         """Add updates to be included in next commit."""
